@@ -190,6 +190,7 @@ def motion_notify_rule(ctx, cg=None):
 def run(ctx):
     ctx.attempt(history_state_reset_rule, ctx)
     ctx.attempt(live_embedding_rule, ctx)
+    ctx.attempt(model_event_rule, ctx)
     from ..shared import memo_result_escape_rule as _memo_result_escape_rule
 
     ctx.attempt(_memo_result_escape_rule, ctx, "R14.24", lambda f: f.qualname.startswith("EasyFEA."), 20)
@@ -789,3 +790,58 @@ def live_embedding_rule(ctx):
             r.ok(f"Mesh.{prop}: {int(before)} -> {int(after)} follows the groups")
         else:
             r.fail(f.qualname, f"stale-after-move:{prop}", f.file, f.lineno, f"Mesh.{prop}", f"after the element groups left their plane Mesh.{prop} still answers {int(after)}; a Mesh constructed on the same groups answers {int(want)}: add_pressureLoad, the weak-form thickness and _Check_dim_mesh_material use the stale value")
+
+
+def model_event_rule(ctx, rid="R14.25"):
+    """'Whatever sequence of public modifications is applied to ... the objects it observes - material or model parameters':
+    the observer entry point.  For every simulation class the effective `_Update(observable, event)` is interpreted, from
+    the state in which every assembled system is up to date (`Need_Update(False)`), with a model event coming from (a) the
+    model of the simulation itself, (b) another model object it observes (the material inside a damage model, a beam of a
+    structure) - and the flags it leaves must be exactly those `Need_Update()` leaves from the same state: a model event
+    makes EVERY assembled system of the simulation stale (a parameter of the model may enter any of them)."""
+    from ..xeval import Interp, XObj, XRaise, Sink
+
+    repo = ctx.repo
+    simu = repo.cls(SIMU)
+    imodel = repo.cls("EasyFEA.Models._utils._IModel")
+    r = ctx.rule(rid, "observer entry point: a model event (from the simulation's model or from another observed model object) leaves the same flags as Need_Update() does, starting from the all-up-to-date state, for every simulation class", min_instances=10)
+    model_cls = imodel
+    for ci in [simu] + sorted(repo.subclasses(simu), key=lambda c: c.qualname):
+        fU = repo.lookup_method(ci, "_Update")
+        fN = repo.lookup_method(ci, "Need_Update")
+        if fU is None or fN is None:
+            continue
+        if not any(isinstance(n, ast.Call) and (dotted(n.func) or "").endswith("Need_Update") for n in ast.walk(fU.node)):
+            continue  # (a simulation that refuses notifications altogether: DIC)
+        for label in ("its own model", "another observed model object"):
+            r.instance(fn=fU.qualname)
+            own = XObj(model_cls, {})
+            other = XObj(model_cls, {})
+
+            def fresh():
+                return XObj(ci, {"model": own, "_Simu__model": own})
+
+            def flags(o):
+                return {k: v for k, v in o.attrs.items() if isinstance(v, bool)}
+
+            I = Interp(repo, extra_builtins={"Terminal": Sink()})
+            try:
+                ref = fresh()
+                I.call_function(fN, [False], self_obj=ref)
+                base = flags(ref)
+                I.call_function(fN, [], self_obj=ref)
+                want = flags(ref)
+                obj = fresh()
+                I.call_function(fN, [False], self_obj=obj)
+                I.call_function(fU, [own if label == "its own model" else other, "Parameter changed"], self_obj=obj)
+                got = flags(obj)
+            except XRaise as e:
+                r.fail(fU.qualname, f"raises:{label}", fU.file, fU.lineno, f"{ci.name}._Update", f"a model event from {label} raises {e}")
+                continue
+            if not want or want == base:
+                raise AnalysisError(f"{rid}: Need_Update of {ci.name} changes no boolean flag in the model ({base} -> {want})")
+            if got == want:
+                r.ok(f"{ci.name}: model event from {label} == Need_Update() ({', '.join(sorted(want))})")
+            else:
+                bad = sorted(k for k in want if got.get(k) != want[k])
+                r.fail(fU.qualname, f"model-event:{label}", fU.file, fU.lineno, f"{ci.name}._Update", f"{ci.name}: after a model event from {label} the flag(s) {bad} are not what Need_Update() leaves ({ {k: got.get(k) for k in bad} } instead of { {k: want[k] for k in bad} }): an assembled system that depends on the model is served stale after a parameter of the model changed")
